@@ -141,14 +141,14 @@ Proof. split; vm_compute; reflexivity. Qed.
    ("//" only); CRLF, no final newline *)
 Local Open Scope byte_scope.
 Definition ex_recs : list prec :=
-  [ [ IField FNA ["n";" ";"1"]; IXX; ISkip KBF [" ";"f";"a";"c";"t";"o";"r"];
+  [ [ IField FNA [" "] ["n";" ";"1"]; IXX; ISkip KBF [" ";"f";"a";"c";"t";"o";"r"];
       IMatrix true [" "; x09] ["T";"A";"G"]
         [ mkRow ["0";"1"] [["1"]; ["2";".";"5"]; ["0"]] [" ";" ";"W"];
           mkRow ["0";"2"] [["7"]; ["1";"e";"2"]; ["3"]] [] ];
-      IField FID ["o";"l";"d"]; IXX; IXX; IField FID ["M";"1"];
+      IField FID [x09; " "] ["o";"l";"d"]; IXX; IXX; IField FID [] ["M";"1"];
       IRef ["1";"2"] (Some ["R";"E";"7"]) [RX ["9";"9"]; RA [" ";"D";"o";"e";" ";"J";"."]; RT ["t";" ";"1"]; RL ["l"]];
       IRef ["2"] None [] ];
-    [ IField FDE ["d"]; ICC [" ";"c";"1"] [[]; [" ";"c";"3"]]; IField FAC ["a";"c"]; IXX;
+    [ IField FDE [" ";" "] ["d"]; ICC [" ";"c";"1"] [[]; [" ";"c";"3"]]; IField FAC [" ";" "] ["a";"c"]; IXX;
       IDT ["1";"9"] ["1";"0"] ["1";"9";"9";"2"] true ["e";"w";"i"]; ICC [] [] ];
     [] ].
 
